@@ -1,2 +1,8 @@
 pub mod budget;
+pub mod catchup;
+pub mod detector;
+pub mod kv;
+pub mod pairs;
+pub mod selection;
 pub mod solo;
+pub mod wire;
